@@ -4,17 +4,27 @@ import (
 	"bytes"
 	"fmt"
 	"os"
+	"sort"
 	"testing"
 	"unicode/utf8"
 
 	"verifharness/internal/ev"
 )
 
-// The line sweep: the random mutants of TestC02_mutants reach "this one metadata line is missing"
-// only by luck (extractor x fixture x member x op x line), yet that is the commonest malformed
-// input there is. This leg enumerates it: for every text fixture, and every metadata member of
-// every zip fixture, each line is deleted once, duplicated once and given other line terminators, and the whole document is converted to CRLF, converted twice (CR CR LF), given a BOM and stripped of its final newline, and the
-// result is decided by the same oracle as any other mutant.
+// The sweep: the random mutants of TestC02_mutants reach "this one metadata line is missing",
+// "the file ends right here" or "this value is only its marker" by luck (extractor x fixture x
+// member x op x position), yet these are the commonest malformed inputs there are. This leg
+// enumerates them. For every text fixture, every metadata member of every zip fixture and every
+// text neighbour file an extractor reads next to its fixture (etc/os-release, _locales/...,
+// go.sum):
+//   - each line is deleted once, duplicated once and given other line terminators;
+//   - the whole document is converted to CRLF, converted twice (CR CR LF), given a BOM and
+//     stripped of its final newline;
+//   - the document is cut off at every byte offset (small documents) or at spread offsets;
+//   - inside the first scalars every contiguous range of character-class runs is deleted
+//     ("__MSG_name__" becomes "__MSG__", "1.2.3" becomes "1..3", `"x"` becomes `"`).
+// For ELF fixtures every section header's offset, size, link/info and entsize field is set to
+// each of a few hostile values. Every case is decided by the same oracle as a random mutant.
 
 // sweepLines picks the line indices to visit: all of them up to limit, else the first half of
 // the budget from the top (headers live there) and the rest evenly spread.
@@ -43,7 +53,7 @@ func textual(b []byte) bool {
 	}
 	if len(b) > 4096 {
 		b = b[:4096]
-		for len(b) > 0 && !utf8.Valid(b) && len(b) > 4092 {
+		for len(b) > 4092 && !utf8.Valid(b) {
 			b = b[:len(b)-1]
 		}
 	}
@@ -51,8 +61,8 @@ func textual(b []byte) bool {
 }
 
 type sweepTarget struct {
-	wrap  func(Mut) Mut // puts the line mutation where it belongs (inside a zip member or not)
-	lines int
+	wrap func(Mut) Mut // puts a mutation where it belongs (inside a zip member or not)
+	body []byte
 }
 
 func sweepTargets(b []byte) []sweepTarget {
@@ -69,16 +79,106 @@ func sweepTargets(b []byte) []sweepTarget {
 				continue
 			}
 			out = append(out, sweepTarget{
-				wrap:  func(m Mut) Mut { return Mut{Op: "zip", A: 4*idx + 1, Sub: []Mut{m}} },
-				lines: len(lineSpans(e.body)),
+				wrap: func(m Mut) Mut { return Mut{Op: "zip", A: 4*idx + 1, Sub: []Mut{m}} },
+				body: e.body,
 			})
 		}
 		return out
 	}
-	if !textual(b) {
+	if !textual(b) && elfSections(b) == 0 {
 		return nil
 	}
-	return []sweepTarget{{wrap: func(m Mut) Mut { return m }, lines: len(lineSpans(b))}}
+	return []sweepTarget{{wrap: func(m Mut) Mut { return m }, body: b}}
+}
+
+// sweepBudget scales the sweep: lines per target, truncation offsets per target, scalars per
+// target whose sub-ranges are deleted.
+type sweepBudget struct{ lines, truncs, scalars, eolLines int }
+
+// sweepMuts lists the mutation sequences of one target.
+func sweepMuts(body []byte, bud sweepBudget) [][]Mut {
+	var out [][]Mut
+	if n := elfSections(body); n > 0 {
+		if n > 48 {
+			n = 48
+		}
+		for sec := 0; sec < n; sec++ {
+			for field := 0; field < 4; field++ {
+				for v := range elfHostile {
+					out = append(out, []Mut{{Op: "elfsec", A: sec, B: field, S: string(rune('a' + v))}})
+				}
+			}
+		}
+		return out
+	}
+	// whole-document format changes
+	out = append(out, []Mut{{Op: "crlf"}}, []Mut{{Op: "crcrlf"}}, []Mut{{Op: "crlf"}, {Op: "crcrlf"}}, []Mut{{Op: "bom"}}, []Mut{{Op: "dropnl"}}, []Mut{{Op: "crlf"}, {Op: "bom"}})
+	lines := sweepLines(len(lineSpans(body)), bud.lines)
+	for _, ln := range lines {
+		out = append(out, []Mut{{Op: "delline", A: ln}}, []Mut{{Op: "dupline", A: ln}})
+	}
+	// line terminators: every variant on the first lines, one rotating variant on the others
+	for k, ln := range lines {
+		if ln < bud.eolLines {
+			for b := range lineEnds {
+				out = append(out, []Mut{{Op: "eol", A: ln, B: b}})
+			}
+		} else {
+			out = append(out, []Mut{{Op: "eol", A: ln, B: k}})
+		}
+	}
+	// cut off at byte offsets: all of them in small documents, else the first ones and a spread
+	if n := len(body); n > 0 {
+		var offs []int
+		if n <= bud.truncs {
+			for i := 0; i < n; i++ {
+				offs = append(offs, i)
+			}
+		} else {
+			head := bud.truncs / 2
+			for i := 0; i < head; i++ {
+				offs = append(offs, i)
+			}
+			for k := 0; k < bud.truncs-head; k++ {
+				offs = append(offs, head+(n-head)*k/(bud.truncs-head))
+			}
+		}
+		for _, o := range offs {
+			out = append(out, []Mut{{Op: "trunc", A: o}})
+		}
+	}
+	// sub-ranges of the first scalars
+	// (the first ones in document order, and as many again of those that are wrapped in
+	// punctuation such as __MSG_x__, ${x}, <x>, %x%: code that strips markers lives there)
+	ss := scalarSpans(body)
+	picked := map[int]bool{}
+	for i := 0; i < len(ss) && i < bud.scalars; i++ {
+		picked[i] = true
+	}
+	wrapped := 0
+	for i := 0; i < len(ss) && wrapped < bud.scalars; i++ {
+		runs := classRuns(body, ss[i])
+		if picked[i] || len(runs) < 3 {
+			continue
+		}
+		isPunct := func(r [2]int) bool {
+			c := body[r[0]]
+			return !(c >= '0' && c <= '9' || c >= 'a' && c <= 'z' || c >= 'A' && c <= 'Z' || c >= 0x80)
+		}
+		if isPunct(runs[0]) && isPunct(runs[len(runs)-1]) {
+			picked[i] = true
+			wrapped++
+		}
+	}
+	for i := range ss {
+		if !picked[i] {
+			continue
+		}
+		for r := range runRanges(body, ss[i]) {
+			out = append(out, []Mut{{Op: "subdel", A: i, B: r}})
+		}
+	}
+	return out
 }
 
 func TestC02_linesweep(t *testing.T) {
@@ -108,14 +208,35 @@ func TestC02_linesweep(t *testing.T) {
 	defer purgeTrees()
 	en := ev.NewEnumerator(t, col)
 	shard, shards := ev.Shard()
-	limit := ev.IntEnv("C02_SWEEP_LINES", ev.Scale(160, 1200))
-	ops := []string{"delline", "dupline"}
+	bud := sweepBudget{
+		lines:    ev.IntEnv("C02_SWEEP_LINES", ev.Scale(96, 1200)),
+		truncs:   ev.IntEnv("C02_SWEEP_TRUNCS", ev.Scale(48, 1024)),
+		scalars:  ev.IntEnv("C02_SWEEP_SCALARS", ev.Scale(5, 48)),
+		eolLines: ev.Scale(3, 8),
+	}
 	only := os.Getenv("C02_ONLY")
-	var idx, ran, targets int
+	var idx, ran, targets, auxTargets int
+	stopped := false
+	run := func(c c02Case, classes ...string) bool {
+		idx++
+		if idx%shards != shard {
+			return true
+		}
+		o, err := ev.Safe(propC02)(c)
+		o.Classes = append(o.Classes, "linesweep")
+		o.Classes = append(o.Classes, classes...)
+		ran++
+		if !en.Report(c, o, err) {
+			stopped = true
+			return false
+		}
+		return true
+	}
 	for _, e := range Registry() {
 		if only != "" && e.Name != only {
 			continue
 		}
+		auxDone := map[string]int{} // neighbour source -> fixtures it was swept with
 		for _, f := range e.Fixtures {
 			if len(f.Paths) == 0 {
 				continue
@@ -126,67 +247,70 @@ func TestC02_linesweep(t *testing.T) {
 			}
 			for _, tg := range sweepTargets(clamp(b)) {
 				targets++
-				// whole-document format changes
-				for _, ms := range [][]Mut{{{Op: "crlf"}}, {{Op: "crcrlf"}}, {{Op: "crlf"}, {Op: "crcrlf"}}, {{Op: "bom"}}, {{Op: "dropnl"}}, {{Op: "crlf"}, {Op: "bom"}}} {
-					idx++
-					if idx%shards != shard {
-						continue
-					}
+				for _, ms := range sweepMuts(tg.body, bud) {
 					c := c02Case{Leg: "linesweep", Extractor: e.Name, Path: f.Paths[0], Base: f.Rel}
 					for _, m := range ms {
 						c.Muts = append(c.Muts, tg.wrap(m))
 					}
-					o, err := ev.Safe(propC02)(c)
-					o.Classes = append(o.Classes, "linesweep", "linesweep_format")
-					ran++
-					if !en.Report(c, o, err) {
-						completed = true
-						return
+					// when Extract fails on the result, a real scan with two healthy neighbours
+					// decides containment, under a scan option set that rotates with the case
+					c.Contain = true
+					pickHealthy(&c, e, idx)
+					if c.Contain {
+						c.ScanOpts = scanOptChoices[idx%len(scanOptChoices)]
+					}
+					if !run(c, "linesweep_"+ms[0].Op) {
+						break
 					}
 				}
-				var muts []Mut
-				for _, ln := range sweepLines(tg.lines, limit) {
-					for _, op := range ops {
-						muts = append(muts, Mut{Op: op, A: ln})
-					}
-				}
-				// line terminators: every variant on the first lines, one rotating variant on the others
-				for k, ln := range sweepLines(tg.lines, limit) {
-					if ln < 6 {
-						for b := range lineEnds {
-							muts = append(muts, Mut{Op: "eol", A: ln, B: b})
-						}
-					} else {
-						muts = append(muts, Mut{Op: "eol", A: ln, B: k})
-					}
-				}
-				for _, m := range muts {
-					{
-						idx++
-						if idx%shards != shard {
-							continue
-						}
-						c := c02Case{Leg: "linesweep", Extractor: e.Name, Path: f.Paths[0], Base: f.Rel, Muts: []Mut{tg.wrap(m)}}
-						// when Extract fails on the result, a real scan with two healthy neighbours
-						// decides containment, under a scan option set that rotates with the case
-						c.Contain = true
-						pickHealthy(&c, e, idx)
-						if c.Contain {
-							c.ScanOpts = scanOptChoices[idx%len(scanOptChoices)]
-						}
-						o, err := ev.Safe(propC02)(c)
-						o.Classes = append(o.Classes, "linesweep")
-						ran++
-						if !en.Report(c, o, err) {
-							col.SetExtra("linesweep", fmt.Sprintf("stopped at the violation cap after %d cases", ran))
-							completed = true
-							return
-						}
-					}
+				if stopped {
+					break
 				}
 			}
+			if stopped {
+				break
+			}
+			// the text neighbour files of this fixture, each swept with at most two fixtures
+			aux := auxFiles(e, f.Rel, f.Paths[0])
+			var names []string
+			for p := range aux {
+				names = append(names, p)
+			}
+			sort.Strings(names)
+			for _, p := range names {
+				src := aux[p]
+				if auxDone[src] >= 2 {
+					continue
+				}
+				over := auxOverride(e, f.Rel, f.Paths[0], p, nil)
+				body := over[p]
+				if !textual(body) {
+					continue
+				}
+				auxDone[src]++
+				auxTargets++
+				for _, ms := range sweepMuts(body, bud) {
+					c := c02Case{Leg: "linesweep", Extractor: e.Name, Path: f.Paths[0], Base: f.Rel, AuxPath: p, AuxMuts: ms}
+					if !run(c, "linesweep_aux", "linesweep_"+ms[0].Op) {
+						break
+					}
+				}
+				if stopped {
+					break
+				}
+			}
+			if stopped {
+				break
+			}
+		}
+		if stopped {
+			break
 		}
 	}
-	col.SetExtra("linesweep", fmt.Sprintf("%d single-line cases over %d text fixtures / archive metadata members (line budget %d per target, ops %v)", ran, targets, limit, ops))
+	if stopped {
+		col.SetExtra("linesweep", fmt.Sprintf("stopped at the violation cap after %d cases", ran))
+	} else {
+		col.SetExtra("linesweep", fmt.Sprintf("%d cases over %d text fixtures / archive metadata members / ELF fixtures and %d neighbour files (budget per target: %d lines, %d cut-off offsets, %d scalars)", ran, targets, auxTargets, bud.lines, bud.truncs, bud.scalars))
+	}
 	completed = true
 }
